@@ -6,12 +6,39 @@ Driver commands for the mapper suite (S-mapper).
   AK <k>                      -> "1" | "0"            (is_action_key)
   M <P> <V> <state> <event> <events> <rrepeat> <state'>   -> "ok" | "viol:<ids>"   (monitors on an observed transition)
   MRA <P> <V> <state> <events> <state'>                   -> "ok" | "viol:<ids>"   (monitors on a release-all batch)
+  M8 <P> <V> <state> <event> <events> <rrepeat> <state'> <obls>  -> "<verdict> <obls'>"
+        C08 with ghost obligations; obls: entries `M.t.mappingIndex.fresh(0/1).h1+h2+…` joined by `;` (`-` = none,
+        held set `~` if empty); verdict "ok" | "viol:<tags>"; obls' = the updated obligations in the same format
 -/
 import TmVerif.Driver.Proto
 import TmVerif.Monitors
 
 namespace TmVerif.MapperCmd
 open TmVerif TmVerif.Proto
+
+def parseObl (L : Layout) (s : String) : Option Obl :=
+  match s.splitOn "." with
+  | [m, t, mi, fr, held] =>
+    match m.toNat?, t.toNat?, mi.toNat?, fr.toNat? with
+    | some M, some t, some mi, some fr =>
+      let heldKeys := if held == "~" then some [] else sequence ((held.splitOn "+").map String.toNat?)
+      match L[mi]?, heldKeys with
+      | some mp, some hk => some ⟨M, t, mp, hk, fr != 0⟩
+      | _, _ => none
+    | _, _, _, _ => none
+  | _ => none
+
+def parseObls (L : Layout) (s : String) : Option (List Obl) :=
+  if s == "-" then some [] else sequence ((s.splitOn ";").map (parseObl L))
+
+def showObl (L : Layout) (ob : Obl) : String :=
+  let mi := match indexOf? L ob.m with | some i => toString i | none => "?"
+  let sorted := ob.held.foldl (fun acc k => (acc.filter (· < k)) ++ [k] ++ (acc.filter (· > k))) []
+  let held := if sorted.isEmpty then "~" else String.intercalate "+" (sorted.map toString)
+  s!"{ob.M}.{ob.t}.{mi}.{if ob.fresh then 1 else 0}.{held}"
+
+def showObls (L : Layout) (obls : List Obl) : String :=
+  if obls.isEmpty then "-" else String.intercalate ";" (obls.map (showObl L))
 
 def handle (L : Layout) (toks : List String) : Option String :=
   match toks with
@@ -39,6 +66,15 @@ def handle (L : Layout) (toks : List String) : Option String :=
       let bad := monRelAll V evs s'
       some (if bad.isEmpty then "ok" else "viol:" ++ String.intercalate "," bad)
     | _, _, _ => none
+  | ["M8", p, v, st, ev, evs, rr, st', obls] =>
+    match parseKeys p, parseKeys v, parseState L st, parseEvent ev, parseEvents evs, parseRRepeat rr, parseState L st',
+          parseObls L obls with
+    | some P, some V, some s, some e, some evs, some rr, some s', some obls =>
+      let o : Obs := ⟨L, P, V, s, e, evs, rr, s'⟩
+      let bad := (monC08 o obls).eraseDups
+      let verdict := if bad.isEmpty then "ok" else "viol:" ++ String.intercalate "," bad
+      some s!"{verdict} {showObls L (nextObls o obls)}"
+    | _, _, _, _, _, _, _, _ => none
   | ["AK", k] =>
     match k.toNat? with
     | some k => some (if isActionKey k then "1" else "0")
